@@ -14,7 +14,7 @@ from vfacts import strip, walk, method_name, root_path, enclosing, is_node
 from .worklist import insert_call_of, key_text
 
 RULE = 'FINCHK'
-FLOOR = 8
+FLOOR = 5
 ANCHORS = ['ExplicitFiniteAutCore::GetCandidateTree', 'ExplicitTreeAutCore::GetCandidateTree']
 ANCHORS_ALL = ANCHORS
 LOOPS = ('CXXForRangeStmt', 'ForStmt', 'WhileStmt', 'DoStmt')
@@ -49,17 +49,39 @@ PAIR_WRAPPERS = ('AddNewPairToAntichain', 'cachePair')
 
 
 def run_incl(unit, fn, em):
+    from .prov import var_table
     params = {p['d'] for p in fn.params}
+    vt = var_table(fn)
+    # local lambdas that insert one of their own parameters into an antichain: wrappers, checked at their call sites
+    lam_wrappers = {}
+    for d, v in vt.items():
+        if v['kind'] != 'local' or not is_node(v['decl'].get('init')):
+            continue
+        lam = strip(v['decl']['init'])
+        if lam is None or lam['k'] != 'LambdaExpr':
+            continue
+        lps = [p_['d'] for p_ in lam.get('params', [])]
+        for x in walk(lam.get('body')):
+            if x['k'] == 'CXXMemberCallExpr' and method_name(x) == 'insert' and len(x.get('args', [])) == 2 and 'Antichain2C' in (x.get('q') or ''):
+                k0 = strip(x['args'][0])
+                if k0 is not None and k0['k'] == 'DeclRefExpr' and k0.get('d') in lps:
+                    lam_wrappers[d] = lps.index(k0['d'])
     for c in fn.calls():
         m = method_name(c)
         args = c.get('args', [])
         is_ac_insert = c['k'] == 'CXXMemberCallExpr' and m == 'insert' and len(args) == 2 and 'Antichain2C' in (c.get('q') or '')
-        if not (is_ac_insert or m in PAIR_WRAPPERS) or not args:
+        lam_call = None
+        if c['k'] == 'CXXOperatorCallExpr' and c.get('op') == '()' and args:
+            f0 = strip(args[0])
+            if f0 is not None and f0['k'] == 'DeclRefExpr' and f0.get('d') in lam_wrappers:
+                lam_call = lam_wrappers[f0['d']]
+                args = args[1:]
+        if not (is_ac_insert or m in PAIR_WRAPPERS or lam_call is not None) or not args:
             continue
-        k = strip(args[0])
+        k = strip(args[lam_call or 0]) if len(args) > (lam_call or 0) else None
         if k is None:
             continue
-        if k['k'] == 'DeclRefExpr' and k.get('d') in params:
+        if k['k'] == 'DeclRefExpr' and (k.get('d') in params or (vt.get(k.get('d')) or {}).get('kind') == 'lparam'):
             continue  # wrapper inserting its own parameter
         ktxt = unit.text(k, 0)
         txt = unit.text(c, 80)
